@@ -266,6 +266,12 @@ def runOps (w : World) (self : Nat) : List Op → World × List Ev × Status
     | (w1, evs, .ok) =>
       match runOps w1 self rest with
       | (w2, evs2, st) => (w2, evs ++ evs2, st)
+    | (w1, evs, .stop) =>
+      -- the function of a destructed object runs on until it returns: an error raised there still reaches
+      -- error_handler, whose set_heart_beat (current_heart_beat, 0) then meets O_DESTRUCTED
+      match rest with
+      | .err :: _ => (w1, evs ++ [.err self], .err)
+      | _ => (w1, evs, .stop)
     | (w1, evs, st) => (w1, evs, st)
 
 /-- write back (heart_beat_index, num_hb_to_do, current_heart_beat) computed by a regenerated slice; the slices only ever
